@@ -1179,10 +1179,11 @@ class TreeRun:
             self.fail("C12", "copy-shares-visual-parameters", "visual_edit", wd.nodes[uid]["cls"], "",
                       f"{uid}.visual_parameters is {vp.uid}, which is not a child of that object")
             return True
-        self.targets.add(own[0])
+        key = str(vp.uid)  # (a copied visual-parameters data may sit next to the original: the one the object gives)
+        self.targets.add(key)
         self.parents.add(uid)
         self.call("VisualParameters", setattr, vp, "colour", [int(v) for v in op["rgb"]])
-        wd.nodes[own[0]] = snap_entity(vp)
+        wd.nodes[key] = snap_entity(vp)
         self.res.label("visual_edit")
         self.touch()
         del ent, vp
